@@ -55,7 +55,8 @@ func (m *URNsModifier) Apply(eng flows.Engine, env envs.Environment, sa flows.Se
 	}
 
 	for _, urn := range m.URNs {
-		urn := urn.Normalize()
+		// normalized all the way, so that what is kept is what HasURN and SetChannel make of it later
+		urn := flows.NormalizeURN(urn)
 
 		// a URN whose query doesn't parse can't be read back (flows.ParseRawURN fails, and with it ReadContact and
 		// ReadSession), so it is no more valid than one whose path is bad
